@@ -192,11 +192,12 @@ PROPS['C13'] = {
     'kani': [{'package': 'flipdot-testing', 'harnesses': [
         H('c13_step_refines_spec', covers=8),
         H('c13_initial_state_satisfies_inv', covers=1),
+        H('c13_spec_type_sizes_agree', covers=1),
     ]}],
     'functions': VSIGN_FNS,
     'assumptions': [A_TOOLS, A_DEBUG, A_VSIGN_BOUND, A_LOG,
                     'spec_step (kani/testing_vsign.rs) is the sign-side protocol state machine written from the protocol description; the harness proves the real step equals it from every state satisfying the inductive invariant inv(), and that inv() is preserved and holds initially',
-                    'inv(): counter hygiene (nothing counted outside a transfer, nothing buffered outside a pixel transfer, except in ReadyToReset after an abandoned transfer), Unconfigured => blank, stored pages have the configured size, no pages in the configuration states'],
+                    'inv(): counter hygiene (nothing counted outside a transfer, nothing buffered outside a pixel transfer, except in ReadyToReset after an abandoned transfer), Unconfigured => blank, stored pages have the configured size, no pages in the configuration states, a recorded type is recorded together with that type\'s size'],
     'explanation': 'C13 = per-step refinement of the documented state machine + inductive invariant, hence every message history. Buffer contents are checked at an arbitrary index (old buffer followed by the chunk; only the chunk after a flush) and a stored page is exactly the buffered bytes (same allocation) with the configured size.',
 }
 
